@@ -1879,3 +1879,8 @@ MA('C07', 'Huber without smoothing returns the componentwise l1 proximal',
    'return proximal_huber(space=self.domain, gamma=self.gamma)',
    'if self.gamma == 0:\n    return proximal_l1(space=self.domain)\nreturn proximal_huber(space=self.domain, gamma=self.gamma)',
    'gamma = 0')
+MA('C15', 'nearest neighbour gathers from the values flattened in memory order',
+   'odl/discr/discr_utils.py', '_NearestInterpolator._evaluate',
+   'return self.values[idx_res]',
+   "return np.take(self.values.ravel(order='K'), np.ravel_multi_index(idx_res, self.values.shape))",
+   'R1L')
